@@ -141,6 +141,21 @@ CHECKS["C11"] = dict(
          "JSON here (abstract empirical models, nn-based, variational objectives, HMC operator) are not covered.",
     design="§6 C11")
 
+CHECKS["C08"] = dict(
+    technique="Coq proofs (sorted running sums = counting definition for any tie-breaking; model = Kingman density; piece integrals by Coquelicot is_RInt; all-equal = constant; scaling law) on a polymorphic hand-written model; Paramcoq enclosure theorems; interval-run correspondence on log_prob and the JSON-built model call",
+    text="34 theorems in prop/C08.v: sorted_cumsum_is_counting and order_invariance for all six models (grid models under "
+         "no_tie: no grid point exactly on a coalescent time), model = Kingman density for constant / exponential / "
+         "skyride / skygrid (full) and piecewise-linear / piecewise-exponential (partial: no_tie), the closed-form piece "
+         "integrals are the integrals of 1/N (Coquelicot), all-equal = constant, scaling law (constant, exponential, "
+         "skyride, skygrid), Paramcoq enclosures of the interval runs. Tie to the code: interval-run correspondence "
+         "(relative 1e-9) on Distribution.log_prob and the JSON-built model call, n = 2..50, serial sampling with ties, "
+         "shuffled heights, grids inside/beyond the root/before the first coalescence, batched; direct checks on the "
+         "implementation: permutations, scaling, all-equal = constant, one-piece pwexp = exponential, refined skygrid.",
+    note="Trusted: Coq kernel; hand-written model M_coalescent.v; torch argsort/bucketize modelled by exact sorting on Q "
+         "keys; scaling law for linear/pwexp and removal of no_tie not proved (checked on the implementation only); "
+         "batch layouts that raise belong to C10.",
+    design="§6 C08")
+
 PENDING_REASON = "check not built yet in this session (build order in DESIGN.md §9); will be claimed once its theorem file and correspondence run clean"
 
 
